@@ -8,6 +8,9 @@
 #define SPECTRA_DAVIDSON_SYM_EIGS_SOLVER_H
 
 #include <Eigen/Core>
+#include <algorithm>
+#include <cmath>
+#include <limits>
 
 #include "JDSymEigsBase.h"
 #include "Util/SelectionRule.h"
@@ -81,9 +84,16 @@ public:
         // There cannot be more corrections than Ritz pairs
         const Index ncorr = (std::min)(this->m_correction_size, Index(residues.cols()));
         Matrix correction = Matrix::Zero(this->m_matrix_operator.rows(), ncorr);
+        const Scalar diag_scale = (m_diagonal.size() > 0) ? m_diagonal.cwiseAbs().maxCoeff() : Scalar(0);
         for (Index k = 0; k < ncorr; k++)
         {
+            // The denominators theta - a_ii vanish for an exactly decoupled coordinate (then the
+            // residual entry is zero as well: 0 / 0) or when a Ritz value meets a diagonal entry:
+            // keep them away from zero by a rounding-level multiple of the size of the matrix
+            const Scalar den_floor = (std::max)(Eigen::NumTraits<Scalar>::epsilon() * (std::abs(eigvals(k)) + diag_scale),
+                                                (std::numeric_limits<Scalar>::min)());
             Vector tmp = eigvals(k) - m_diagonal.array();
+            tmp = (tmp.array().abs() < den_floor).select(Vector::Constant(tmp.size(), den_floor), tmp);
             correction.col(k) = residues.col(k).array() / tmp.array();
         }
         return correction;
